@@ -532,7 +532,16 @@ func (g *Gen) handleOp() bool {
 		if !h.canW {
 			return false
 		}
-		g.emit(-1, "HTruncate %d %d", s, r.Range(0, 12))
+		if r.Chance(1, 3) { // shrink, then grow again: the bytes cut off must come back as zeros
+			a := r.Range(0, 4)
+			g.emit(-1, "HTruncate %d %d", s, a)
+			g.emit(-1, "HTruncate %d %d", s, a+r.Range(1, 8))
+			if h.canR && r.Chance(1, 2) {
+				g.emit(-1, "HReadAt %d 12 0", s)
+			}
+		} else {
+			g.emit(-1, "HTruncate %d %d", s, r.Range(0, 12))
+		}
 	case 10:
 		g.emit(-1, "HStat %d", s)
 	default:
